@@ -183,6 +183,16 @@ fn damaged_texts(tier: Tier) -> Vec<String> {
     for doc in &docs {
         let base = render(doc, &[]);
         let mut texts = vec![base.text.clone()];
+        // spellings that differ in one prefix choice (prefixed start and end tags, synonymous prefixes)
+        if tier == Tier::Quick {
+            for (i, m) in base.points.iter().enumerate().skip(1) {
+                if base.labels[i] == "prefix-choice" {
+                    for a in 1..*m as usize {
+                        texts.push(render(doc, &[(i, a)]).text);
+                    }
+                }
+            }
+        }
         // one-deviation spellings (text entry points only)
         if tier == Tier::Thorough {
             for (i, m) in base.points.iter().enumerate().skip(1) {
@@ -330,6 +340,31 @@ fn damaged_texts(tier: Tier) -> Vec<String> {
                     }
                 }
             }
+            // every end tag rewritten with another way of writing a name (other prefix, no prefix): the end tag
+            // must repeat the start tag's name as written, so each of these is a tag mismatch
+            {
+                let mut from = 0;
+                while let Some(i) = t[from..].find("</") {
+                    let at = from + i + 2;
+                    let end = t[at..].find(|c: char| c == '>' || c.is_whitespace()).map(|e| at + e).unwrap_or(t.len());
+                    let q = &t[at..end];
+                    let local = q.rsplit(':').next().unwrap_or(q);
+                    let mut variants = vec![local.to_string()];
+                    for px in ["p", "q"] {
+                        variants.push(format!("{}:{}", px, local));
+                    }
+                    for v in variants {
+                        if v != q {
+                            let mut d = String::new();
+                            d.push_str(&t[..at]);
+                            d.push_str(&v);
+                            d.push_str(&t[end..]);
+                            push(d);
+                        }
+                    }
+                    from = end;
+                }
+            }
             push(t.replace("&amp;", "&#0;"));
             push(t.replace("&lt;", "&bogus;"));
             push(t.replace("version=\"1.0\"", "version=\"1.1\""));
@@ -450,7 +485,52 @@ pub fn run(tier: Tier) -> i32 {
             st.fail(&Case::Bytes(b.clone()), f);
         }
     }));
-    if let Err(e) = require_nonzero(&stats, &["raw_strings", "token_strings", "damaged_texts", "byte_strings", "encoding_cases", "accepted", "rejected", "accepted_and_compared"]) {
+    // (e) character references: every code point 0 ..= 0x110000 as a hexadecimal reference in text, and the code
+    //     points around every boundary of the XML Char production in decimal / hexadecimal, in text and in an
+    //     attribute value: accepted exactly when the code point is an XML Char
+    stats = stats.merge(par_range(&ctx, 0x110001 / 256 + 1, |blk, st| {
+        for cp in (blk * 256)..((blk + 1) * 256).min(0x110001) {
+            let t = format!("<a>&#x{:X};</a>", cp);
+            let fails = eval_text(&t, st);
+            st.bump("reference_cases");
+            for f in fails {
+                st.fail(&Case::Text(t.clone()), f);
+            }
+        }
+    }));
+    {
+        let mut edge: Vec<u32> = vec![];
+        for b in [0u32, 0x9, 0xA, 0xD, 0x20, 0x7F, 0x85, 0xD7FF, 0xD800, 0xDFFF, 0xE000, 0xFFFD, 0xFFFE, 0xFFFF, 0x10000, 0x10FFFF, 0x110000, 0xFFFFFFFF] {
+            for d in [-2i64, -1, 0, 1, 2] {
+                let v = b as i64 + d;
+                if (0..=0xFFFF_FFFFi64).contains(&v) {
+                    edge.push(v as u32);
+                }
+            }
+        }
+        edge.sort();
+        edge.dedup();
+        let mut texts = vec![];
+        for cp in &edge {
+            for r in [format!("&#{};", cp), format!("&#x{:x};", cp), format!("&#x{:X};", cp), format!("&#x0{:X};", cp), format!("&#00{};", cp)] {
+                texts.push(format!("<a>{}</a>", r));
+                texts.push(format!("<a k=\"{}\"/>", r));
+                texts.push(format!("<a xmlns:p=\"u{}\"/>", r));
+                texts.push(format!("<a>x{}y<b k='{}'/></a>", r, r));
+            }
+        }
+        // far beyond u32
+        texts.push("<a>&#99999999999999999999;</a>".into());
+        texts.push("<a>&#xFFFFFFFFFFFFFFFFF;</a>".into());
+        stats = stats.merge(par_slice(&ctx, &texts, |t, st| {
+            let fails = eval_text(t, st);
+            st.bump("reference_cases");
+            for f in fails {
+                st.fail(&Case::Text(t.clone()), f);
+            }
+        }));
+    }
+    if let Err(e) = require_nonzero(&stats, &["raw_strings", "token_strings", "damaged_texts", "byte_strings", "encoding_cases", "reference_cases", "accepted", "rejected", "accepted_and_compared"]) {
         eprintln!("MACHINERY: {}", e);
         return 2;
     }
@@ -460,7 +540,7 @@ pub fn run(tier: Tier) -> i32 {
         "evaluations": stats.evals,
         "distinct_nontrivial": total,
         "samples": samples,
-        "rule": format!("(a) every string of length <= {} over 18 markup symbols; (b) every sequence of <= {} fragments from a 39-item token menu (tags with synonymous prefixes, duplicate attributes / declarations, references incl. &#0; &#xD800; &#+65;, comments, PIs, CDATA, ]]>, DOCTYPEs, XML declarations 1.0 / 1.1); (c) every single-character deletion / duplication / replacement / insertion / truncation and 12 structural edits of the default spellings of the C02 documents (thorough: also of their one-deviation spellings); (d) every byte string of length <= {} and 8 BOMs x 40 encoding labels x 3 bodies; each to parse and parse_fragment (text) / parse_bytes; oracle: no panic; texts the reference recogniser XmlRead classifies ill-formed for a reason in the property's catalogue are rejected; whatever is accepted equals the reference reader's tree (when it has one), passes validate_well_formed_document, has unique attributes / declarations, serialises, and reparses equal; distinct = distinct (entry point, resulting tree or error variant)", l, tl, bl),
+        "rule": format!("(a) every string of length <= {} over 18 markup symbols; (b) every sequence of <= {} fragments from a 39-item token menu (tags with synonymous prefixes, duplicate attributes / declarations, references incl. &#0; &#xD800; &#+65;, comments, PIs, CDATA, ]]>, DOCTYPEs, XML declarations 1.0 / 1.1); (c) every single-character deletion / duplication / replacement / insertion / truncation and 13 structural edits (incl. every end tag rewritten under another prefix / without prefix) of the default spellings of the C02 documents and of their spellings with one other prefix choice (thorough: of all their one-deviation spellings); (d) every byte string of length <= {} and 8 BOMs x 40 encoding labels x 3 bodies; (e) every code point 0..=0x110000 as a hexadecimal character reference in text, and decimal / hexadecimal / zero-padded references to the code points within 2 of every boundary of the XML Char production in text, attribute values and namespace URIs; each to parse and parse_fragment (text) / parse_bytes; oracle: no panic; texts the reference recogniser XmlRead classifies ill-formed for a reason in the property's catalogue are rejected; whatever is accepted equals the reference reader's tree (when it has one), passes validate_well_formed_document, has unique attributes / declarations, serialises, and reparses equal; distinct = distinct (entry point, resulting tree or error variant)", l, tl, bl),
     });
     ctx.finish(stats, cov, vec!["XmlRead answers Unknown for anything it does not positively classify; only IllFormed(reason in catalogue) creates an obligation".into(), "a process abort (stack overflow, allocation failure) would surface as a machinery error of the driver, never as a pass".into()])
 }
